@@ -72,6 +72,9 @@ class VariablesConfig(ImmutableBaseModel):
 
     @model_validator(mode="after")
     def _broadcast_and_transform(self, info: ValidationInfo) -> Self:
+        if getattr(self, "_is_immutable", False):
+            # Do not modify an object that was validated before:
+            self = self.model_copy()  # noqa: PLW0642
         self._mutable()
 
         lower_bounds = broadcast_1d_array(
